@@ -184,6 +184,7 @@ PLANS = {
     },
     "C16": {
         "quick": [ex("nst3", "nst", 3, 4, alphabet=["a", "b", "(", ")"], kinds=["tree", "treem"], modes=["E"]), ex("nst2", "nst", 2, 4, alphabet=["a", "(", ")"], kinds=["tree"], modes=["C"]),
+                  ex("nstT", "nstT", 1, 4, alphabet=["a", "b", "(", ")"], kinds=["tree", "treem"], etys=["rich", "simple"], modes=["E"]),
                   rec("nstR", "nst", 2000, 8, 10, kinds=["tree", "treem"])],
         "thorough": [ex("nst3", "nst", 3, 6, alphabet=["a", "b", "(", ")"], kinds=["tree", "treem"]),
                      ex("nst4", "nst", 4, 4, alphabet=["a", "(", ")"], kinds=["treem"], modes=["E"]),
